@@ -6,7 +6,9 @@ sharing ``label`` but not ``name``; sharing both but not ``definition``; a fresh
 constructed copy equal to the first).  EVERY ordered selection of universe members
 is taken as vocabulary; those whose members are pairwise unequal (the property's
 precondition) are combined with EVERY tag list up to the length bound (repeats and
-out-of-vocabulary members included) and, per list, EVERY score assignment.
+out-of-vocabulary members included) and, per list, EVERY score assignment over the
+score alphabet (quick: universe of 5, lists <= 3, scores {0, 1/4, 1}; thorough:
+universe of 6, lists <= 4, scores {0, 1/4, 1, 0.1} -- {1/4, 1} for the lists of length 4).
 
 Space 2 (hash / equality).  Per class with a hand-written ``__hash__`` a pool of
 objects: a base object, one variant per declared field (reflection makes sure no
@@ -40,7 +42,7 @@ ID = "C19"
 RULE = (
     "space 1: every ordered selection of the tag universe as vocabulary (those with two equal members are outside "
     "the property's precondition: executed for the encoder only and counted vacuous) x every tag list up to the "
-    "length bound x every score assignment over the score alphabet; one 'encoder' case per vocabulary (encode of "
+    "length bound x every score assignment over the score alphabet of that list length (see bounds); one 'encoder' case per vocabulary (encode of "
     "every universe tag, decode of every index) and one 'lists' case per (vocabulary, tag list) (classification, "
     "multilabel, prediction for every score vector, and the same calls with out-of-vocabulary members removed). "
     "A lists case is non-trivial when the list holds a vocabulary tag together with an out-of-vocabulary tag or a "
@@ -317,7 +319,10 @@ def run_lists(case):
         good = all(x == 0 or x == 1 for x in lst) and [int(x) for x in lst] == expml
         kind = "ok"
         if not good:
-            kind = "false_positive" if any(x and not y for x, y in zip(lst, expml)) else "false_negative"
+            if not all(x == 0 or x == 1 for x in lst):
+                kind = "not_binary"
+            else:
+                kind = "false_positive" if any(x and not y for x, y in zip(lst, expml)) else "false_negative"
     out.expect("multilabel_indicator", good, obs, ["ok", expml], {"fn": "multilabel_encoding", "kind": kind})
     if has_oov:
         try:
@@ -625,24 +630,35 @@ def run_pair(case):
         out.validated = 0
         out.klass = "pair:realisation_refused(%s)" % (A.get("error") or B.get("error"))
         return out
+    if type(a).__hash__ is None or type(b).__hash__ is None:
+        # a class that declares itself unhashable is outside the clause ("the classes that define __hash__")
+        for o in ("eq_symmetric", "eq_implies_hash", "dict_set_usable"):
+            out.vac(o)
+        out.transitions = 0
+        out.validated = 0
+        out.klass = "pair:class_declared_unhashable(unjudged)"
+        return out
     same_spec = A["spec"] == B["spec"]
     rel = "identical" if a is b else ("same_spec" if same_spec else ("same_class" if A["cls"] == B["cls"] else "cross_class"))
-    cls = {"a": A["cls"], "b": B["cls"], "rel": rel}
-    if rel == "same_spec":
-        cls["how"] = sorted([A["how"], B["how"]])
+    cls = {"a": A["cls"], "b": B["cls"]}
+    detail = {"rel": rel, "how": [A["how"], B["how"]]}
     eab = _obs(lambda: a == b)
     eba = _obs(lambda: b == a)
     out.expect("eq_symmetric", eab[0] == "ok" and eab == eba and isinstance(eab[1], bool), [eab, eba],
-               "a == b and b == a give the same bool", cls)
+               "a == b and b == a give the same bool", dict(cls, kind="symmetric"), detail)
     if a is b:
-        out.expect("eq_symmetric", eab == ("ok", True), eab, "x == x", dict(cls, kind="reflexive"))
+        out.expect("eq_symmetric", eab == ("ok", True), eab, "x == x", dict(cls, kind="reflexive"), detail)
     equal = eab == ("ok", True) and eba == ("ok", True)
     ha, ha2, hb = _obs(lambda: hash(a)), _obs(lambda: hash(a)), _obs(lambda: hash(b))
-    out.expect("eq_implies_hash", ha[0] == "ok" and hb[0] == "ok" and ha == ha2 and isinstance(ha[1], int), [ha, ha2, hb],
-               "hash() succeeds and is stable", dict(cls, kind="hashable_stable"))
+    # hashing itself is judged on the first member only (every pool object is the first member of some pair)
+    out.expect("eq_implies_hash", ha[0] == "ok" and ha == ha2 and isinstance(ha[1], int), [ha, ha2],
+               "hash() succeeds and is stable", {"class": A["cls"], "kind": "hashable_stable"}, detail)
     hashable = ha[0] == "ok" and hb[0] == "ok"
     if equal:
-        out.expect("eq_implies_hash", hashable and ha == hb, [ha, hb], "equal hashes for equal objects", dict(cls, kind="equal_objects"))
+        if hashable:
+            out.expect("eq_implies_hash", ha == hb, [ha, hb], "equal hashes for equal objects", dict(cls, kind="equal_objects"), detail)
+        else:
+            out.vac("eq_implies_hash")
     else:
         out.vac("eq_implies_hash")
     if hashable:
@@ -657,7 +673,7 @@ def run_pair(case):
         else:
             exp = [2, False, False, None, 2]
             kind = "unequal_objects_stay_apart"
-        out.expect("dict_set_usable", r == ("ok", exp), r, ["ok", exp], dict(cls, kind=kind))
+        out.expect("dict_set_usable", r == ("ok", exp), r, ["ok", exp], dict(cls, kind=kind), detail)
     else:
         out.vac("dict_set_usable")
     collide = hashable and ha == hb
